@@ -43,7 +43,12 @@ void vh_infeasible(const char *msg);
 #define VH_MAIN int main(void)
 #endif
 
-/* inclusive integer range */
+/* inclusive ranges */
+#ifdef VH_CBMC
+static inline double vh_double_in(double lo, double hi) { double v = vh_double(); vh_assume(v >= lo && v <= hi); return v; }
+#else
+double vh_double_in(double lo, double hi);
+#endif
 static inline int vh_int_in(int lo, int hi) { int v = vh_int(); vh_assume(v >= lo && v <= hi); return v; }
 
 #ifdef WITNESS
